@@ -189,6 +189,10 @@ def tryDecode (enc : Nat) : List Bytes → Option (Text × Bytes)
     | .ok r => some r
     | .error _ => tryDecode enc ds
 
+/-- issue #276 (in `MultiSpec.read`): before v2.4 a remainder of zero bytes is padding, not a list
+of empty strings -/
+def stripZeroTail (h : Hdr) (d : Bytes) : Bytes := if decide (h.version < 4) && allZero d then [] else d
+
 /-- `EncodedTextSpec.read` -/
 def readEncText (h : Hdr) (c : Ctx) (data : Bytes) : Except PyErr (Text × Bytes) :=
   match ctxEnc c with
@@ -196,7 +200,7 @@ def readEncText (h : Hdr) (c : Ctx) (data : Bytes) : Except PyErr (Text × Bytes
   | .ok enc =>
     match tryDecode enc (textFixups enc data) with
     | none => .error .mutagen
-    | some (t, rest) => .ok (t, if decide (h.version < 4) && allZero rest then [] else rest)
+    | some (t, rest) => .ok (t, rest)
 
 /-- `EncodedTextSpec.write`: `encode_endian(value, enc, le=True) + term`;
 `UnicodeEncodeError` becomes `SpecError` -/
@@ -309,9 +313,9 @@ def readMulti (h : Hdr) (c : Ctx) (elems : List TextKind) (data : Bytes) : Excep
   else
     match readRecord h c elems data with
     | .error e => .error e
-    | .ok (record, d') =>
-      if hlt : d'.length < data.length then
-        match readMulti h c elems d' with
+    | .ok (record, d0) =>
+      if hlt : (stripZeroTail h d0).length < data.length then
+        match readMulti h c elems (stripZeroTail h d0) with
         | .error e => .error e
         | .ok vs => .ok (recordVal elems record :: vs)
       else .error .diverge
